@@ -519,11 +519,60 @@ def explore_pyapi(case):
     return res
 
 
+def explore_threads(case):
+    """the group method called from two threads"""
+    # two filters propagate in two threads (different step sizes): every interleaving of the library's Python statements with at most one
+    # preemption (thorough: two); each call returns what it returns alone
+    from .. import numapi, threads
+    seed = case["seed"]
+    res = core.Result()
+    for config, G in ((case["config"], lib.lie.SE23Quat if case["config"] == "strapdown_quat" else lib.lie.SE23Mrp),):
+        x0 = initial_states(config, seed)[1]
+
+        def mk(dt_, a_, w_, G=G, x0=x0):
+            def call():
+                with contextlib.redirect_stdout(io.StringIO()):
+                    l_ = lib.lie.se23.elem(ca.DM(np.concatenate([np.zeros(3), a_, w_])))
+                    r_ = lib.lie.se23.elem(ca.DM([0, 0, 0, 0, 0, -9.8, 0, 0, 0.0]))
+                    Bm_ = ca.sparsify(ca.SX([[0, 1], [0, 0]]))
+                    return numapi.ev(G.exp_mixed(G.elem(ca.DM(x0)), l_ * dt_, r_ * dt_, Bm_ * dt_).param).tobytes()
+            return call
+        fa, fb = mk(0.01, A_MENU[2], W_MENU[2]), mk(0.5, A_MENU[1], W_MENU[3])
+        alone = [fa(), fb()]
+        nrun = 0
+        for choices, results, npts, capped in threads.explore([fa, fb], ("cyecca/lie/", "cyecca/symbolic.py"), 1 if case["tier"] == "quick" else 2, max_runs=3000 if case["tier"] == "quick" else 30000):
+            if capped:
+                res.counters["thread_schedules_capped"] += 1
+                break
+            nrun += 1
+            res.count("evaluations")
+            res.count("schedules")
+            res.nontrivial.add(hash((config, "threads", tuple(choices))))
+            res.counters["max_scheduling_points"] = max(res.counters["max_scheduling_points"], npts)
+            bad = [k for k, r_ in enumerate(results) if r_ is None or r_[0] != "ok" or r_[1] != alone[k]]
+            if bad:
+                res.fail(site=config, clause="python_api_step_independent_of_a_concurrent_step", cls="threads", detail=dict(thread=bad[0], schedule=choices,
+                         outcome=(results[bad[0]][1] if results[bad[0]] and results[bad[0]][0] != "ok" else "differs from the call alone")), sub="threads", case=case)
+                break
+    res.samples.append(dict(threads=case["config"]))
+    return res
+
+
+class _SubTh:
+    chunks = 1
+
+    def cases(self, tier, seed):
+        return [dict(sub="threads", tier=tier, seed=seed, config=c) for c in ("strapdown_quat", "exp_mixed_mrp")]
+
+    def run(self, case):
+        return explore_threads(case)
+
+
 class _SubPy:
     chunks = 1
 
     def cases(self, tier, seed):
-        return [dict(sub="pyapi", tier=tier, seed=seed)]
+        return [dict(sub="pyapi", tier=tier, seed=seed)]  # (tier read by the thread exploration)
 
     def run(self, case):
         return explore_pyapi(case)
@@ -561,9 +610,9 @@ class _SubWords:
         return explore_words(case)
 
 
-SUBCHECKS = {"onestep": _SubOne(), "pyapi": _SubPy(), "words": _SubWords(), "longrun": _SubLong()}
+SUBCHECKS = {"onestep": _SubOne(), "pyapi": _SubPy(), "threads": _SubTh(), "words": _SubWords(), "longrun": _SubLong()}
 SUBCHECKS["words"].chunks = 4
-REPLAY = {"onestep": lambda c: explore_onestep(c).fails, "words": lambda c: explore_words(c).fails, "pyapi": lambda c: explore_pyapi(c).fails,
+REPLAY = {"onestep": lambda c: explore_onestep(c).fails, "words": lambda c: explore_words(c).fails, "pyapi": lambda c: explore_pyapi(c).fails, "threads": lambda c: explore_threads(c).fails,
           "longrun": lambda c: explore_longrun(c).fails}
 
 
